@@ -8,6 +8,7 @@
 """
 import ast
 import math
+import random
 from fractions import Fraction
 from types import SimpleNamespace
 
@@ -302,7 +303,8 @@ def api_corners(run):
     # the same id listed once under each of two states (baseline and feed), both copies reporting: still a repeated unit id
     for pi, ests, feats, params in (("nonparametric", ["turnout"], [], {}), ("gaussian", ["turnout"], [], {}),
                                     ("bootstrap", ["margin"], ["baseline_normalized_margin"], E.boot_params(B=4))):
-        e = exact_election(rng, 26, n_partial=2, first_state=13)
+        # (own generator: the streams that follow keep the cases they had before this corner existed)
+        e = exact_election(random.Random(f"c14-two-states-{getattr(run, 'seed', 0)}-{pi}"), 26, n_partial=2, first_state=13)
         a = e.pre.index[e.pre["postal_code"] == "AA"][0]
         b = e.pre.index[e.pre["postal_code"] == "BB"][0]
         ida, idb = e.pre.loc[a, "geographic_unit_fips"], e.pre.loc[b, "geographic_unit_fips"]
@@ -333,6 +335,29 @@ def api_corners(run):
                 run.violation("with many excluded units reporting the gate does not count the modelled units only", input=case,
                               impl={"outcome": impl, "msg": res.get("msg")}, expected=want, predicate="gate_iff", signature="C14:gate-excluded",
                               election=e.to_json())
+    # fixed shapes with their own generator (every run has them, whatever the seed): a list of levels whose last one needs fewer units
+    # than an earlier one, with a count between the two minima; gaussian runs whose reporting units are spread over two states in the
+    # ways that leave a state without (or with a single) calibration unit
+    own = random.Random(f"c14-fixed-{getattr(run, 'seed', 0)}")
+    fixed = []
+    hi, lo = int(math.ceil(impl_min("nonparametric", 0.9))), int(math.ceil(impl_min("nonparametric", 0.7)))
+    fixed.append(("nonparametric", [0.9, 0.7], hi - 1, None, "ModelNotEnoughSubunitsException"))
+    fixed.append(("nonparametric", [0.9, 0.7], lo, None, "ModelNotEnoughSubunitsException"))
+    fixed.append(("nonparametric", [0.9, 0.7], hi, None, "completed"))
+    g = int(math.ceil(impl_min("gaussian", 0.7)))
+    for n, first in ((g, g), (g + 3, g + 3), (g + 4, (g + 4) // 2), (g + 3, g + 2), (g + 3, 1)):
+        fixed.append(("gaussian", [0.7], n, first, "completed"))
+    for pi, alphas, n, first, want in fixed:
+        e = exact_election(own, n, n_partial=3, first_state=first)
+        res = E.run_client(e, estimands=["turnout"], alphas=alphas, pi_method=pi, features=[])
+        case = {"api": True, "corner": "fixed shape", "pi_method": pi, "alphas": alphas, "n_reporting": n, "reporting_in_first_state": first}
+        run.case(case, True)
+        run.count("corner: fixed shapes")
+        impl = res.get("raises", "completed")
+        if impl != want:
+            run.violation("too few reporting units did not raise the dedicated error" if want != "completed" else
+                          "the minimum is met but the run did not complete", input=case, impl={"outcome": impl, "msg": res.get("msg")},
+                          expected=want, predicate="gate_iff / split_ok", signature="C14:gate", election=e.to_json())
 
 
 ALPHAS_Q = [0.5, 0.75, 0.875, 0.7, 0.9, 0.95, 0.99, 0.3, 0.6, 0.8, 0.85]
